@@ -41,6 +41,8 @@ CSumSeq(s) == IF s = <<>> THEN CZero ELSE CAdd(Head(s), CSumSeq(Tail(s)))
 CSumFn(F(_), lo, hi) == CSumSeq([i \in 1..((hi - lo) + 1) |-> F((lo + i) - 1)])
 
 CSeqBad(s) == \E i \in 1..Len(s) : CBad(s[i])
+CEqOrOvf(a, b) == CBad(a) \/ CBad(b) \/ a = b
+CSeqEqOrOvf(s, t) == CSeqBad(s) \/ CSeqBad(t) \/ s = t
 
 \* multiplication by i^k
 CMulIPow(z, k) == LET m == k % 4 IN
